@@ -1,7 +1,8 @@
 CONSTANTS
-  SheetIdx = {0, 13, 26, 31, 39, 42, 52, 65, 78, 91, 104, 117, 130, 143, 153, 156, 166, 169, 182, 188, 195, 208, 221, 234, 247, 260, 273, 275, 286, 288, 299, 312, 316, 325, 338, 351, 364, 377, 390, 403, 416, 429, 442, 455, 468, 481, 482, 494, 507, 520, 533, 546, 559, 572, 585, 598, 611, 624, 637, 650, 663, 676, 689, 702, 715, 728, 741, 754, 767}
+  SheetIdx = {0, 13, 17, 31, 34, 42, 51, 68, 85, 102, 119, 136, 153, 166, 170, 187, 188, 204, 221, 238, 255, 272, 275, 288, 289, 306, 316, 323, 340, 357, 374, 391, 408, 416, 425, 442, 459, 476, 482, 493, 510, 527, 544, 561, 578, 595, 612, 629, 646, 663, 680, 697, 714, 731, 748, 765}
+  Thin = FALSE
   NSeed = 4
-  ScanMod = 3
+  ScanMod = 6
 INIT Init
 NEXT Next
 INVARIANTS PlantedThm InterleavedThm SymmetryThm ScanThm ShortcutThm SafetyThm ModeThm Export
